@@ -15,7 +15,7 @@ requests (floats are `f<uint64 bits of the double>`)
 
   trace outs=<id,…> nodes=<node;node;…>
         → rowlocal=<1|0> firstbad=<id>:<reason>|_ types=<one of p,i,m per node> modes=<one of r,w,u,- per node>
-          batched=<0|1 per node> nwhole=<k> nescape=<k> unsupported=<names|_>
+          batched=<0|1 per node> layout=<0|1|g per node> nwhole=<k> nescape=<k> unsupported=<names|_>
         the program recorded from the real code (`harness/trace_c07.py`), lowered by `Trace.lower` and typed by
         `Trace.rowLocal`; `firstbad` = first `mixed` ancestor of the first offending output (or the first escape of a
         non-`pop` value) with the reason: `axis0:<fn>` (takes batched arguments whole), `unknown-leaf`, `escape`,
@@ -25,11 +25,12 @@ requests (floats are `f<uint64 bits of the double>`)
 
   node syntax (`|`-separated; shapes `3x11x4`, scalar `_`):
     P|k|shape   I|k|shape   U|k|shape          inputs (population-level / individual-level, axis 0 = individuals / unclassified)
+    J|k|shape                                  individual-level input whose individuals are on axis 1 (k numbered with the I inputs)
     K|shape|f,…                                constant
     E|a|<1|0>                                  bool()/item() of node a; 1 = whitelisted assertion site
     O|<op>|<args>|<out shape>|<params>         ew.<name> | red.<name> dims:keep | view | squeeze d|_ | unsqueeze d | expand |
                                                getitem <items: `:` N E i<k> s<a>:<b>:<step>> | cat d | stack d | matmul |
-                                               transpose a,b | softmax d | cumsum d | unknown.<torch name>
+                                               transpose a,b | softmax d | cumsum d | mselect | mscatter | unknown.<torch name>
 -/
 
 /-- dt=64 (joint model: float64 `tau`, `xi`): the change `std * randn` is a float32 product
@@ -84,7 +85,7 @@ def parseEw : String → Option Ew
 
 def parseRed : String → Option Red
   | "sum" => some .sum | "prod" => some .prod | "max" => some .max | "min" => some .min | "mean" => some .mean
-  | "all" => some .all | "any" => some .any | _ => none
+  | "all" => some .all | "any" => some .any | "median" => some .median | _ => none
 
 def parseOptInt (s : String) : Option (Option Int) := if s == "_" || s == "" then some none else some <$> parseInt s
 
@@ -125,6 +126,8 @@ def parseTOp (name params : String) : Option (TOp Float) :=
     | _ => none
   | ["softmax"] => TOp.softmax <$> parseInt params
   | ["cumsum"] => TOp.cumsum <$> parseInt params
+  | ["mselect"] => some .mselect
+  | ["mscatter"] => some .mscatter
   | "unknown" :: rest => some (.unknown (".".intercalate rest))
   | _ => none
 
@@ -132,6 +135,7 @@ def parseNode (s : String) : Option (TNode Float) :=
   match s.splitOn "|" with
   | ["P", k, sh] => do some (.pop (← parseNat k) (← parseShape sh))
   | ["I", k, sh] => do some (.ind (← parseNat k) (← parseShape sh))
+  | ["J", k, sh] => do some (.ind1 (← parseNat k) (← parseShape sh))
   | ["U", k, sh] => do some (.unk (← parseNat k) (← parseShape sh))
   | ["K", sh, d] => do
     let sh ← parseShape sh
@@ -154,7 +158,8 @@ def wellScoped (nodes : List (TNode Float)) : Bool :=
 def fnName : Fn Float → String
   | .const _ => "const" | .ew _ _ => "ew" | .red _ _ _ => "red" | .reshape _ => "reshape" | .expand _ => "expand"
   | .index _ => "index" | .cat _ => "cat" | .stack _ => "stack" | .matmul => "matmul" | .transpose _ _ => "transpose"
-  | .softmax _ => "softmax" | .cumsum _ => "cumsum" | .unknown s => s!"unsupported:{s}"
+  | .softmax _ => "softmax" | .cumsum _ => "cumsum" | .mselect => "mselect" | .mscatter => "mscatter"
+  | .unknown s => s!"unsupported:{s}"
 
 def reason (nodes : List (Node (Fn Float))) (tys : List Ty) (k : Nat) : String :=
   match nodes[k]? with
@@ -196,19 +201,23 @@ def runTrace (args : List String) : Option String := do
     | .op _ a => if a.any (·.whole) then "w" else if i.batched then "r" else "u"
     | _ => "-"
   let bat := infos.map fun i => if i.batched then "1" else "0"
-  some s!"rowlocal={fmtBool ok} firstbad={fb} types={"".intercalate (tys.map tyc)} modes={"".intercalate modes} batched={"".intercalate bat} nwhole={nwhole} nescape={nesc} unsupported={fmtList id unsup.eraseDups}"
+  -- how the rows of a batched value make up the torch tensor: 0 = stacked on axis 0, 1 = on axis 1, g = ragged (`x[mask]`)
+  let lay := infos.map fun i => if i.ragged.isSome then "g" else if i.axis = 1 then "1" else "0"
+  some s!"rowlocal={fmtBool ok} firstbad={fb} types={"".intercalate (tys.map tyc)} modes={"".intercalate modes} batched={"".intercalate bat} layout={"".intercalate lay} nwhole={nwhole} nescape={nesc} unsupported={fmtList id unsup.eraseDups}"
 
-def leafShapes (nodes : List (TNode Float)) : List (List Nat) × List (List Nat) × List (List Nat) :=
+def leafShapes (nodes : List (TNode Float)) : List (List Nat) × List (List Nat) × List (List Nat) × List Nat :=
   let get := fun (sel : TNode Float → Option (Nat × List Nat)) =>
     let l := nodes.filterMap sel
     (List.range l.length).map fun k => ((l.find? (·.1 = k)).map (·.2)).getD []
-  (get fun | .pop k s => some (k, s) | _ => none, get fun | .ind k s => some (k, s) | _ => none,
-   get fun | .unk k s => some (k, s) | _ => none)
+  let inds := get fun | .ind k s => some (k, s) | .ind1 k s => some (k, s) | _ => none
+  let ax1 := nodes.filterMap fun | .ind1 k _ => some k | _ => none
+  (get fun | .pop k s => some (k, s) | _ => none, inds,
+   get fun | .unk k s => some (k, s) | _ => none, (List.range inds.length).map fun k => if ax1.contains k then 1 else 0)
 
 def runEval (args : List String) : Option String := do
   let (tnodes, outs) ← parseProg args
   let n ← (kv args "n") >>= parseNat
-  let (ps, is, us) := leafShapes tnodes
+  let (ps, is, us, axes) := leafShapes tnodes
   let rd := fun (key : String) (shapes : List (List Nat)) => do
     let d ← (kv args key) >>= (parseList (parseList parseFloat ·) · ";")
     if d.length != shapes.length then none
@@ -218,11 +227,12 @@ def runEval (args : List String) : Option String := do
   let inds ← rd "inds" is
   let unks ← rd "unks" us
   let p := lower tnodes outs
-  let env := (eval (tensorSem floatOps) n (inputsOf pops inds unks) p).toArray
+  let env := (eval (tensorSem floatOps) n (inputsOfAx floatOps pops (inds.zip axes) unks) p).toArray
+  let infos := (lowerFrom tnodes [] []).2
   let fmt := fun (o : Nat) => match env[o]? with
     | none => s!"{o}:_:_"
     | some v =>
-      let t := wholeOf (tensorSem floatOps) n v
+      let t := layoutWhole floatOps n ((infos[o]?).getD ⟨false, [], 0, none⟩) v
       s!"{o}:{fmtShape t.shape}:{fmtList fmtFloat t.data.toList}"
   some s!"out={";".intercalate (outs.map fmt)}"
 
